@@ -286,6 +286,35 @@ def _format_to_joinedstr(n: ast.Call):
     return ast.copy_location(node, n)
 
 
+def _percent_to_joinedstr(n: ast.BinOp):
+    """`"lit%s…" % (a, b)` with plain %s / %r fields is the f-string `f"lit{a}…"` (for the str/int values these keys are
+    built from); anything else -> None."""
+    if not (isinstance(n.op, ast.Mod) and isinstance(n.left, ast.Constant) and isinstance(n.left.value, str)):
+        return None
+    args = list(n.right.elts) if isinstance(n.right, ast.Tuple) else [n.right]
+    if any(isinstance(a, (ast.Starred, ast.Dict)) for a in args):
+        return None
+    import re as _re
+
+    parts = _re.split(r"(%[srd%])", n.left.value)
+    if "%" in "".join(p_ for p_ in parts if p_ not in ("%s", "%r", "%d", "%%")):
+        return None
+    values, i = [], 0
+    for p_ in parts:
+        if p_ in ("%s", "%r", "%d"):
+            if i >= len(args):
+                return None
+            values.append(ast.FormattedValue(value=args[i], conversion=ord("r") if p_ == "%r" else -1, format_spec=None))
+            i += 1
+        elif p_ == "%%":
+            values.append(ast.Constant(value="%"))
+        elif p_:
+            values.append(ast.Constant(value=p_))
+    if i != len(args):
+        return None
+    return ast.copy_location(ast.JoinedStr(values=values), n)
+
+
 def _literal_kwargs(v: ast.AST, events):
     """Keywords of `**v` when v is a dict display with constant string keys that nothing touched since."""
     if not (isinstance(v, ast.Name) and v.id.startswith("$l") and v.id[2:].isdigit()):
@@ -516,8 +545,130 @@ class Enumerator:
 
         return iterate(st, 0)
 
+    def _gen_callee(self, call: ast.Call, st: St):
+        """The package generator function `call` would be inlined as, or None."""
+        if self.inline_pred is None or self.r is None or not isinstance(call, ast.Call):
+            return None
+        try:
+            callees = self.r.resolve_call(_Subst(st.env).visit(_deepcopy(call)), st)
+        except Exception:
+            return None
+        self._allow_generator = True
+        try:
+            target = self._inline_target(callees, st, call)
+        finally:
+            self._allow_generator = False
+        if target is None or not any(isinstance(x, (ast.Yield, ast.YieldFrom)) for x in _own_nodes_of(target.node)):
+            return None
+        if any(isinstance(x, ast.YieldFrom) and not isinstance(x.value, ast.Call) for x in _own_nodes_of(target.node)):
+            return None
+        return target
+
+    def _for_over_generator(self, s, st, callee: FuncInfo):
+        """`for x in gen(...): body` with gen an inlined generator: gen's body runs, and at each of its yields the loop
+        body runs with x bound to the yielded value (break stops the generator, continue resumes it)."""
+        n = s.iter
+        kwnodes = [kw.value for kw in n.keywords]
+        if not hasattr(self, "_gen_ctx"):
+            self._gen_ctx, self._yield_hooks = {}, []
+
+        def save_caller(env, frames):
+            key = f"$gc{len(self._gen_ctx)}"
+            self._gen_ctx[key] = (env, frames)
+            return N(key)
+
+        def kf(st1, f):
+            def kargs(st2, vals):
+                args = vals[: len(n.args)]
+                kws = [ast.keyword(arg=kw.arg, value=v) for kw, v in zip(n.keywords, vals[len(n.args):])]
+                term = ast.Call(func=f, args=args, keywords=kws)
+                ev = Ev("call", term, n, st2.fn, {"awaited": False, "callee": self.r.resolve_call(term, st2), "env": st2.env,
+                                                  "try": self._try_depth > 0, "generator_loop": True})
+                st3 = st2.emit(ev)
+                genv = self._bind_params(callee, term, st3)
+                caller_frames = st3.frames
+                genv["$caller"] = save_caller(st3.env, caller_frames)
+                st_in = st3.emit(Ev("enter", N(callee.qualname), term, st3.fn, {"callee": callee}))
+                st_in = st_in.with_env(genv, caller_frames + (callee,))
+
+                def hook(stg, v):
+                    gen_env, gen_frames = stg.env, stg.frames
+                    cenv, cframes = self._gen_ctx[gen_env["$caller"].id]
+                    stc = stg.with_env(cenv, cframes)
+                    self._yield_hooks.pop()
+                    try:
+                        results = self.store(s.target, v, stc, s, lambda st5: self.block(s.body, st5))
+                    finally:
+                        self._yield_hooks.append(hook)
+                    out = []
+                    for st6, oc in results:
+                        env2 = dict(gen_env)
+                        env2["$caller"] = save_caller(st6.env, cframes)
+                        out.append((st6.with_env(env2, gen_frames), oc))
+                    return out
+
+                hook.callee = callee
+                self._yield_hooks.append(hook)
+                try:
+                    body_res = self.block(callee.node.body, st_in)
+                finally:
+                    self._yield_hooks.pop()
+                out = []
+                for st7, oc in body_res:
+                    cenv, cframes = self._gen_ctx[st7.env["$caller"].id] if "$caller" in st7.env else (st3.env, caller_frames)
+                    back = st7.with_env(cenv, cframes)
+                    if oc is FALL or oc[0] == "return":
+                        back = back.emit(Ev("leave", None, term, st3.fn, {"callee": callee, "generator_loop": True}))
+                        out.extend(self.block(s.orelse, back))
+                    elif oc[0] == "genstop":
+                        back = back.emit(Ev("leave", None, term, st3.fn, {"callee": callee, "generator_loop": True, "stopped": True}))
+                        out.append((back, FALL if oc[1] is None else oc[1]))
+                    else:
+                        out.append((back, oc))
+                return out
+
+            return self.ev_list(list(n.args) + kwnodes, st1, kargs)
+
+        return self.ev(n.func, st, kf)
+
     def s_For(self, s, st):
+        if isinstance(s.iter, ast.Call) and not isinstance(s, ast.AsyncFor):
+            it = s.iter
+            if isinstance(it.func, ast.Name) and it.func.id == "map" and "map" not in st.env and len(it.args) == 2 and not it.keywords:
+                # for x in map(f, xs): body   ==   for _m in xs: x = f(_m); body      (map is lazy)
+                tmp = f"__map{getattr(s, 'lineno', 0)}"
+                asg = ast.Assign(targets=[s.target], value=ast.Call(func=it.args[0], args=[ast.Name(id=tmp, ctx=ast.Load())], keywords=[]))
+                new = ast.For(target=ast.Name(id=tmp, ctx=ast.Store()), iter=it.args[1], body=[asg] + list(s.body), orelse=list(s.orelse))
+                for x_ in (asg, new):
+                    ast.copy_location(x_, s)
+                ast.fix_missing_locations(new)
+                return self.s_For(new, st)
+            callee = self._gen_callee(it, st)
+            if callee is not None:
+                return self._for_over_generator(s, st, callee)
+
         def k(st0, it):
+            if isinstance(it, ast.GeneratorExp) and len(it.generators) == 1 and not it.generators[0].is_async \
+                    and not getattr(s, "_from_genexp", False):
+                # for x in (elt for v in xs if c): body   ==   for v in xs: if not c: continue; x = elt; body   (lazy)
+                g = it.generators[0]
+                bound = {t.id for t in ast.walk(g.target) if isinstance(t, ast.Name)}
+                ren = {b: f"__g{getattr(s, 'lineno', 0)}_{b}" for b in bound}
+
+                class _R(ast.NodeTransformer):
+                    def visit_Name(self, nd):
+                        return ast.Name(id=ren[nd.id], ctx=nd.ctx) if nd.id in ren else nd
+
+                tgt = _R().visit(_deepcopy(g.target))
+                body = [ast.If(test=ast.UnaryOp(op=ast.Not(), operand=_R().visit(_deepcopy(c))), body=[ast.Continue()], orelse=[]) for c in g.ifs]
+                body.append(ast.Assign(targets=[s.target], value=_R().visit(_deepcopy(it.elt))))
+                new = ast.For(target=tgt, iter=g.iter, body=body + list(s.body), orelse=list(s.orelse))
+                for x_ in body:
+                    ast.copy_location(x_, s)
+                ast.copy_location(new, s)
+                ast.fix_missing_locations(new)
+                new._from_genexp = True
+                return self.s_For(new, st0)
             literal = None
             if isinstance(it, (ast.Tuple, ast.List)) and not any(isinstance(e, ast.Starred) for e in it.elts):
                 literal = list(it.elts)
@@ -922,6 +1073,9 @@ class Enumerator:
             value=v, conversion=n.conversion, format_spec=n.format_spec)))
 
     def e_BinOp(self, n, st, k):
+        js = _percent_to_joinedstr(n)
+        if js is not None:
+            return self.ev(js, st, k)
         return self.ev_list([n.left, n.right], st,
                             lambda st2, v: k(st2, ast.BinOp(left=v[0], op=n.op, right=v[1])))
 
@@ -967,6 +1121,17 @@ class Enumerator:
 
     def e_Yield(self, n, st, k):
         def ky(st2, v):
+            hooks = getattr(self, "_yield_hooks", None)
+            if hooks and st2.frames and st2.frames[-1] is hooks[-1].callee and "$caller" in st2.env:
+                out = []
+                for stg, oc in hooks[-1](st2, v if v is not None else ast.Constant(value=None)):
+                    if oc is FALL or oc is CONTINUE:
+                        out.extend(k(stg, ast.Constant(value=None)))
+                    elif oc is BREAK:
+                        out.append((stg, ("genstop", None)))
+                    else:
+                        out.append((stg, ("genstop", oc)))
+                return out
             st3 = st2.emit(Ev("yield", v, n, st2.fn))
             return k(st3, N(f"$y{len(st3.events)}"))
 
@@ -1002,6 +1167,9 @@ class Enumerator:
             env = {a: b for a, b in st2.env.items() if a not in bound}
             new = _Subst(env).visit(_deepcopy(n))
             new.generators[0].iter = it0
+            for c_ in ast.walk(new):
+                if isinstance(c_, ast.Call):
+                    c_.func = self._canon_func(c_.func, st2)
             inner_calls = [c for c in ast.walk(new) if isinstance(c, ast.Call)]
             st3 = st2.emit(Ev("comp", new, n, st2.fn, {"calls": inner_calls, "orig": n}))
             return k(st3, new)
@@ -1029,6 +1197,23 @@ class Enumerator:
         js = _format_to_joinedstr(n)
         if js is not None:
             return self.ev(js, st, k)
+        if isinstance(n.func, ast.Attribute) and n.func.attr == "extend" and len(n.args) == 1 and not n.keywords \
+                and isinstance(n.args[0], ast.Call) and self._gen_callee(n.args[0], st) is not None:
+            # xs.extend(gen(...)) with gen an inlined generator   ==   for _v in gen(...): xs.append(_v)
+            tmp = f"__ext{getattr(n, 'lineno', 0)}"
+            app = ast.Expr(value=ast.Call(func=ast.Attribute(value=n.func.value, attr="append", ctx=ast.Load()),
+                                          args=[ast.Name(id=tmp, ctx=ast.Load())], keywords=[]))
+            loop = ast.For(target=ast.Name(id=tmp, ctx=ast.Store()), iter=n.args[0], body=[app], orelse=[])
+            for x_ in (app, loop):
+                ast.copy_location(x_, n)
+            ast.fix_missing_locations(loop)
+            out = []
+            for st2, oc in self.s_For(loop, st):
+                if oc is FALL:
+                    out.extend(k(st2, ast.Constant(value=None)))
+                else:
+                    out.append((st2, oc))
+            return out
         kwnodes = [kw.value for kw in n.keywords]
 
         def kf(st1, f):
@@ -1042,7 +1227,13 @@ class Enumerator:
                     else:
                         kws.append(ast.keyword(arg=kw.arg, value=v))
                 term = ast.Call(func=f, args=args, keywords=kws)
+                tup = self._namedtuple_value(term, st2)
+                if tup is not None:
+                    return k(st2, tup)  # a NamedTuple instance is the tuple of its fields
                 callees = self.r.resolve_call(term, st2) if self.r is not None else None
+                cf = self._canon_func(f, st2)
+                if cf is not f:
+                    term = ast.Call(func=cf, args=args, keywords=kws)  # `module.func(...)` is shown as `func(...)`
                 ev = Ev("call", term, n, st2.fn, {"awaited": awaited, "callee": callees,
                                                    "env": st2.env, "try": self._try_depth > 0})
                 st3 = st2.emit(ev)
@@ -1062,6 +1253,46 @@ class Enumerator:
             return self.ev_list(list(n.args) + kwnodes, st1, kargs)
 
         return self.ev(n.func, st, kf)
+
+    def _canon_func(self, f: ast.AST, st: St):
+        """`alias.func` where alias names a module of the package -> `func` (the way it is imported does not matter)."""
+        if self.r is None or st.fn is None or not (isinstance(f, ast.Attribute) and isinstance(f.value, ast.Name)) or f.value.id in st.env:
+            return f
+        try:
+            g = self.r.lookup_global(f.value.id, st.fn.module)
+        except Exception:
+            return f
+        if g and g[0] == "module" and (f.attr in g[1].functions or f.attr in g[1].classes):
+            return ast.Name(id=f.attr, ctx=ast.Load())
+        return f
+
+    def _namedtuple_value(self, term: ast.Call, st: St):
+        if self.r is None or not isinstance(term.func, ast.Name) or st.fn is None:
+            return None
+        try:
+            g = self.r.lookup_global(term.func.id, st.fn.module)
+        except Exception:
+            return None
+        if not g or g[0] != "class":
+            return None
+        c = g[1]
+        if not any(b.split(".")[-1] == "NamedTuple" for b in c.bases) or c.methods:
+            return None
+        fields = [st_.target.id for st_ in c.node.body if isinstance(st_, ast.AnnAssign) and isinstance(st_.target, ast.Name)]
+        defaults = {st_.target.id: st_.value for st_ in c.node.body if isinstance(st_, ast.AnnAssign) and isinstance(st_.target, ast.Name) and st_.value is not None}
+        if any(isinstance(a, ast.Starred) for a in term.args) or any(kw.arg is None for kw in term.keywords) or len(term.args) > len(fields):
+            return None
+        vals = dict(zip(fields, term.args))
+        for kw in term.keywords:
+            if kw.arg not in fields or kw.arg in vals:
+                return None
+            vals[kw.arg] = kw.value
+        for f_ in fields:
+            if f_ not in vals:
+                if f_ not in defaults:
+                    return None
+                vals[f_] = defaults[f_]
+        return ast.Tuple(elts=[vals[f_] for f_ in fields], ctx=ast.Load())
 
     def _raise_variants(self, st: St, node):
         if self._try_depth <= 0 or self.exc_edges == "none":
